@@ -16,7 +16,7 @@ from ..flow import Flow, emptiness_test_kind
 from ..alg import Sym, Unsupported, _binop
 
 GEO = "typhon/geographical.py"
-EXPECT = {"C06.units": 8, "C06.scale": 4, "C06.deshuffle": 2, "C06.pairs": 4, "C06.empty": 1, "C06.metric": 2, "C06.complete": 3, "C06.pure": 3, "C06.support": 1}
+EXPECT = {"C06.args": 3, "C06.units": 8, "C06.scale": 4, "C06.deshuffle": 2, "C06.pairs": 4, "C06.empty": 1, "C06.metric": 2, "C06.complete": 3, "C06.pure": 3, "C06.support": 1}
 
 SI_KM = {  # unit -> (kilometres per unit, accepted spellings)
     "cm": (1e-5, {"cm", "centimeter", "centimeters", "centimetre", "centimetres"}),
@@ -697,3 +697,6 @@ def run(ctx):
         ctx.attempt(r, ctx)
     from ..purity import rule_pure
     ctx.attempt(rule_pure, ctx, "C06.pure", [(GEO, "GeoIndex.query"), (GEO, "GeoIndex._to_metric"), (GEO, "to_kilometers")])
+    # the caller's arguments (arrays, filter / fill dictionaries) are not modified: an in-place update makes the next call on the same objects wrong
+    from ..purity import rule_pure as _rule_args
+    ctx.attempt(_rule_args, ctx, "C06.args", [('typhon/geographical.py', 'GeoIndex.query'), ('typhon/geographical.py', 'GeoIndex.__init__'), ('typhon/geographical.py', 'GeoIndex._to_metric')], "the caller's arguments are not modified in place")
